@@ -223,5 +223,6 @@ def replay_case(prop, rec, judge, invariant=None):
                 invariant(t, cfg, frames, lambda: case)
     with quiet():
         status, value, _ = replay_answers(call, case['answers'], unit_points=unit_points_for(cfg), at_choice=at)
-    judge(t, cfg, status, value, lambda: case)
+    if status != 'cut':
+        judge(t, cfg, status, value, lambda: case)
     return t
